@@ -172,6 +172,8 @@ func (s *PredicatePartitionStrategy) AddPartition(partition *PredicatePartition)
 	if exists {
 		return false
 	}
+	// the new bin's share is derived from the current total limit like every registered bin
+	partition.UpdateLimit(s.limit)
 	s.partitions = append(s.partitions, partition)
 	return true
 }
